@@ -85,13 +85,13 @@ class WindowedCoordinator:
 
         with ThreadPoolExecutor(max_workers=self._max_workers) as pool:
             while current_time < self._end_time:
-                window_end_s = current_time.to_seconds() + self._window_size
+                # Integer-nanosecond arithmetic: a round trip through float
+                # seconds can land 1 ns short of end_time, after which the
+                # clamped window end never reaches it and the loop spins.
+                window_end = current_time + self._window_size
                 # Clamp to end_time
-                if self._end_time != Instant.Infinity:
-                    end_s = self._end_time.to_seconds()
-                    if window_end_s > end_s:
-                        window_end_s = end_s
-                window_end = Instant.from_seconds(window_end_s)
+                if window_end > self._end_time:
+                    window_end = self._end_time
 
                 # 1. EXECUTE (parallel)
                 futures = {}
@@ -122,6 +122,19 @@ class WindowedCoordinator:
                         total_windows, current_time,
                     )
                     break
+
+            # Cross-partition events exchanged at the last barrier can be due exactly
+            # at end_time.  A sequential run delivers every event with time <= end_time,
+            # so give the partitions one final pass up to end_time (the window loop
+            # pops nothing scheduled later than that).
+            if self._end_time != Instant.Infinity and current_time >= self._end_time:
+                futures = {}
+                for name in self._simulations:
+                    futures[pool.submit(self._run_partition_window, name, self._end_time)] = name
+                for future in as_completed(futures):
+                    name, elapsed = future.result()
+                    partition_wall_times[name] += elapsed
+                total_cross_events += self._exchange_events(self._end_time)
 
         # Finalize each partition
         partition_summaries = {}
